@@ -94,6 +94,19 @@ def inject(c, fault, meth):
     elif fault == 'false_after_fill':
         # false only once the (fixed) horizon is written in: T = 1
         st.subject_to(st.T <= 0.5)
+    elif fault == 'inf_nonpolynomial':
+        import random as _r
+        e = _r.Random(hash((meth, st is c.ocp)) % 1000).choice([lambda x: ca.sin(x), lambda x: ca.exp(x), lambda x: ca.sqrt(x + 50), lambda x: 1 / (x + 50), lambda x: x / 2 + ca.cos(x)])
+        st.subject_to(e(c.x) <= 7, grid='inf')
+    elif fault == 'no_value_clone':
+        # two clones of a template whose parameter gets a value in one clone only (the sub-stage of the script is left as it is)
+        from rockit import Stage
+        t = Stage(T=1)
+        tx = t.state(); tu = t.control(); tp = t.parameter()
+        t.set_der(tx, -tx + tu * tp); t.add_objective(t.integral(tu ** 2)); t.subject_to(t.at_t0(tx) == 1)
+        t.method(method_of(meth))
+        s1 = c.ocp.stage(t, t0=2); s2 = c.ocp.stage(t, t0=3)
+        s1.set_value(tp, 1.5)
     elif fault == 'inf_no_guarantee':
         st.method((MultipleShooting if meth == 'MS' else SingleShooting)(N=2, intg='expl_euler'))
         st.subject_to(c.x <= 7, grid='inf')
